@@ -128,9 +128,13 @@ def float_out_of_range(node, d, tuples=True):
     if k == "union":
         if tuples and type(d) is tuple and len(d) == 2:
             return any(hint_name(b) == d[0] and float_out_of_range(b, d[1], tuples) for b in node.branches)
+        # next to a double branch the float branch never receives an unhinted
+        # number (rule of C09: double is preferred, wherever it stands)
+        has_double = any(deref(b).kind == "double" for b in node.branches)
         return any(
             conforms(b, d, False, tuples, True) and float_out_of_range(b, d, tuples)
             for b in node.branches
+            if not (has_double and deref(b).kind == "float")
         )
     return False
 
